@@ -141,17 +141,97 @@ def pat_two_way_dependent(rank, size, pt):
     return {"out": pt.staple_distributed_send(r * x, 0, 2, stapled_to=r - x)}
 
 
+def pat_late_use_of_early_recv(rank, size, pt):
+    """rank 1 receives a in the first round; only a part two rounds later reads it (not through any output
+    of the part in between)"""
+    x = _x(pt)
+    if rank == 0:
+        back = pt.make_distributed_recv(src_rank=1, comm_tag=2, shape=(3,), dtype=F64)
+        o = pt.staple_distributed_send(x * 3, 1, 1, stapled_to=back + 1)
+        return {"out": pt.staple_distributed_send(back * x, 1, 3, stapled_to=o)}
+    a = pt.make_distributed_recv(src_rank=0, comm_tag=1, shape=(3,), dtype=F64)
+    c = pt.make_distributed_recv(src_rank=0, comm_tag=3, shape=(3,), dtype=F64)
+    return {"out": pt.staple_distributed_send(x + 2, 0, 2, stapled_to=c * 2) + a}
+
+
+def pat_diamond(rank, size, pt):
+    """0 -> {1, 2} -> 0: two independent branches re-joined on the root"""
+    x = _x(pt)
+    if rank == 0:
+        r1 = pt.make_distributed_recv(src_rank=1, comm_tag=11, shape=(3,), dtype=F64)
+        r2 = pt.make_distributed_recv(src_rank=2, comm_tag=12, shape=(3,), dtype=F64)
+        o = pt.staple_distributed_send(x + 1, 1, 1, stapled_to=r1 - r2)
+        return {"out": pt.staple_distributed_send(x * 2, 2, 2, stapled_to=o), "only_r2": r2 * x}
+    r = pt.make_distributed_recv(src_rank=0, comm_tag=rank, shape=(3,), dtype=F64)
+    return {"out": pt.staple_distributed_send(r * x + rank, 0, 10 + rank, stapled_to=r)}
+
+
+def pat_three_rounds(rank, size, pt):
+    """three receives in three successive parts on each rank; each round's message depends on the previous one"""
+    other = 1 - rank
+    x = _x(pt)
+    r1 = pt.make_distributed_recv(src_rank=other, comm_tag=1, shape=(3,), dtype=F64)
+    y1 = pt.staple_distributed_send(x, other, 1, stapled_to=x + r1)
+    r2 = pt.make_distributed_recv(src_rank=other, comm_tag=2, shape=(3,), dtype=F64)
+    y2 = pt.staple_distributed_send(y1 * 2, other, 2, stapled_to=y1 - r2)
+    r3 = pt.make_distributed_recv(src_rank=other, comm_tag=3, shape=(3,), dtype=F64)
+    return {"out": pt.staple_distributed_send(y2 + 1, other, 3, stapled_to=y2 * r3)}
+
+
+def pat_three_rounds_one_way(rank, size, pt):
+    """rank 1 has three receives in successive parts; rank 0's third message depends on rank 1's reply to the second"""
+    x = _x(pt)
+    if rank == 0:
+        back = pt.make_distributed_recv(src_rank=1, comm_tag=12, shape=(3,), dtype=F64)
+        o = pt.staple_distributed_send(x, 1, 20, stapled_to=x)
+        o = pt.staple_distributed_send(x * 2, 1, 21, stapled_to=o)
+        return {"out": pt.staple_distributed_send(back + x, 1, 22, stapled_to=o + back)}
+    a = pt.make_distributed_recv(src_rank=0, comm_tag=20, shape=(3,), dtype=F64)
+    b = pt.make_distributed_recv(src_rank=0, comm_tag=21, shape=(3,), dtype=F64)
+    c = pt.make_distributed_recv(src_rank=0, comm_tag=22, shape=(3,), dtype=F64)
+    mid = pt.staple_distributed_send(a * b, 0, 12, stapled_to=a + b)
+    return {"out": mid * c}
+
+
+def _pingpong(rounds):
+    def pat(rank, size, pt):
+        """a ball bounced `rounds` times between two ranks, served by rank 1 (message k, tag 30+k, goes from rank
+        (k+1)%2 to rank k%2); rank 0 also pushes one early message (tag 29) that nothing else depends on.  Each
+        bounce depends only on the previous one and every received value is only *used* in the final output, so a
+        slow rank may find several of its messages waiting at once"""
+        x = _x(pt)
+        recvs = {k: pt.make_distributed_recv(src_rank=1 - rank, comm_tag=30 + k, shape=(3,), dtype=F64)
+                 for k in range(rounds) if k % 2 == rank}
+        res = x
+        for k in sorted(recvs):
+            res = res + recvs[k] * (k + 1)
+        if rank == 1:
+            res = res * pt.make_distributed_recv(src_rank=0, comm_tag=29, shape=(3,), dtype=F64)
+        else:
+            res = pt.staple_distributed_send(x - 1, 1, 29, stapled_to=res)
+        for k in range(rounds):
+            if (k + 1) % 2 == rank:
+                payload = x * 2 if k == 0 else recvs[k - 1] + x
+                res = pt.staple_distributed_send(payload, 1 - rank, 30 + k, stapled_to=res)
+        return {"out": res}
+    return pat
+
+
 PATTERNS = {
+    "pingpong4": (_pingpong(4), (2,)), "pingpong5": (_pingpong(5), (2,)),
     "single": (pat_single, (1,)), "exchange2": (pat_exchange2, (2,)), "ring": (pat_ring, (2, 3, 4)),
     "ring_2rounds": (pat_ring_2rounds, (2, 3)), "star": (pat_star, (2, 3, 4)), "chain": (pat_chain, (2, 3, 4)),
     "multi_send": (pat_multi_send, (2,)), "forward_only": (pat_forward_only, (3,)),
     "outputs_are_inputs": (pat_outputs_are_inputs, (2,)), "materialized": (pat_materialized, (2,)),
     "two_way_dependent": (pat_two_way_dependent, (2,)),
+    "late_use_of_early_recv": (pat_late_use_of_early_recv, (2,)), "diamond": (pat_diamond, (3,)),
+    "three_rounds": (pat_three_rounds, (2,)), "three_rounds_one_way": (pat_three_rounds_one_way, (2,)),
 }
 QUICK = [("single", 1), ("exchange2", 2), ("ring", 2), ("ring", 3), ("star", 2), ("chain", 2), ("chain", 3),
          ("multi_send", 2), ("forward_only", 3), ("outputs_are_inputs", 2), ("materialized", 2), ("two_way_dependent", 2),
-         ("ring_2rounds", 2)]
-THOROUGH = QUICK + [("star", 3), ("ring_2rounds", 3), ("chain", 4), ("ring", 4), ("star", 4)]
+         ("ring_2rounds", 2), ("late_use_of_early_recv", 2), ("diamond", 3), ("three_rounds", 2),
+         ("three_rounds_one_way", 2), ("pingpong4", 2)]
+THOROUGH = QUICK + [("pingpong5", 2), ("star", 3), ("ring_2rounds", 3), ("chain", 4), ("ring", 4), ("star", 4)]
 
 
 # ---------------------------------------------------------------------------
